@@ -32,6 +32,18 @@ def multi_inline():
                 yield f"{pre}a\\\n{pad}b{post}\n"
 
 
+def hard_break_then_multiline():
+    """a line ending in a hard break, then an inline element that spans lines whose last line is indented differently, then
+    more inline content on that line"""
+    for pre in ("", "> ", "- "):
+        pad = " " * len(pre) if pre == "- " else pre
+        for hb in ("\\", "  "):
+            for elem in ("<span\n{i}class='x'>", "[t](\n{i}/u)", "![t](\n{i}/u)", "[t\n{i}u](/v)", "`a\n{i}b`"):
+                for ind in ("", " ", "    "):
+                    for post in (" then *one*", " `c`", " x", " [m](/w)"):
+                        yield f"{pre}first{hb}\n{pad}second " + elem.replace("{i}", pad + ind) + post + "\n"
+
+
 def _pos(doc):
     st, toks = impl.parse(doc, eos=True)
     if st != "ok":
@@ -89,8 +101,8 @@ def run(ctx):
     ctx.prove("Props/C05.v", ["Model/Pos.v", "Proofs/PosProofs.v", "Extract/Extract.v"])
     sp = c04.spaces(ctx)
     sp.pop("emphasis-runs(7)", None)
-    mi = list(gen.uniq(multi_inline()))
-    sp["multi-line-inline"] = mi if ctx.tier == "thorough" else gen.sample(mi, 500, ctx.seed + 7)
+    mi = list(gen.uniq(list(multi_inline()) + list(hard_break_then_multiline())))
+    sp["multi-line-inline"] = mi if ctx.tier == "thorough" else gen.sample(mi, 900, ctx.seed + 7)
     em = list(gen.uniq(gen.d_emph(5)))
     sp["emphasis-runs(5)"] = em if ctx.tier == "thorough" else gen.sample(em, 1500, ctx.seed + 8)
     docs, origin = [], []
